@@ -55,6 +55,12 @@ def _events(args):
     text = (resp + " ~ " if resp else "") + text.split("~", 1)[1].strip()
     ns = rows.namespace(w, rng)
     out = []
+    if rng.random() < 0.3:
+        # seven-digit identifiers stored as floats (an integer column that once held a missing value):
+        # their labels differ only in the seventh significant digit and must stay distinct
+        ids = [1000001.0 + float(v) for v in w.cols["C(k)"]["v"]]
+        w.df["id7"] = np.array(ids, dtype=float)
+        text += rng.choice([" + C(id7)", " + (1 | id7)", " + C(id7) + (1 | id7)"])
     st, dm = design.build(text, w.df, extra_namespace=ns)
     if st != "ok":
         return out, text
@@ -109,6 +115,27 @@ def _events(args):
                         cur_g = res
     finally:
         config["EVAL_UNSEEN_CATEGORIES"] = old
+    # another design from the same formula text on other data (other numbers of rows, levels and groups):
+    # the containers of the first design must be what they were
+    w2 = gen.gen_world(random.Random(rng.random()), nmin=5, nmax=14)
+    if "id7" in w.df.columns:
+        w2.df["id7"] = np.array([1000001.0 + float(v) for v in w2.cols["C(k)"]["v"]], dtype=float)
+    st2, _dm2 = design.build(text, w2.df, extra_namespace=rows.namespace(w2, rng))
+    if st2 == "ok":
+        for j, (m, tag) in enumerate(((dm.response, "response"), (dm.common, "common"), (dm.group, "group"))):
+            if m is not None:
+                out.append(object_event(base + 12 + j, m, n, "after_another_design:" + tag))
+        with warnings.catch_warnings():
+            warnings.simplefilter("ignore")
+            for j, (part, cur) in enumerate((("common", dm.common), ("group", dm.group))):
+                if cur is None:
+                    continue
+                try:
+                    res = cur.evaluate_new_data(w.df)
+                except Exception as e:  # pylint: disable=broad-except
+                    out.append({"id": base + 15 + j, "kind": "object", "status": type(e).__name__ + ":" + str(e)[:60], "slices": [], "ncols": 0, "nrows": 0, "want_rows": n, "views": False, "printed": False, "tag": "after_another_design:new:" + part})
+                    continue
+                out.append(object_event(base + 15 + j, res, n, "after_another_design:new:" + part))
     return out, text
 
 
